@@ -42,18 +42,14 @@ pub open spec fn gap_dist(t: &Tour, s: int, e1: int) -> Distance {
     if s == 0 || e1 == t.len() { Distance::Distance(0) }
     else { t.network.locations.sp_distance(t.network.sp_node(t.nodes@[s - 1]).sp_end_location(), t.network.sp_node(t.nodes@[e1]).sp_start_location()) }
 }
-pub proof fn lemma_remove_dhd(t: &Tour, s: int, e1: int)
+/// no panic in `dhd - y + g` (split off lemma_remove_dhd: smaller queries are stable across Z3 seeds)
+pub proof fn lemma_remove_dhd_no_panic(t: &Tour, s: int, e1: int)
     requires cut_ok(t, s, e1), s < e1, t.dead_head_distance == t.network.spec_dead_head_distance(t.nodes@),
     ensures ({
         let y = ddec(mid_p(t.pre(s), t.mid(s, e1), t.suf(e1), t.network.f_leg_dist()));
         let g = gap_dist(t, s, e1);
-        // no panic in `dhd - y + g`
         &&& (t.dead_head_distance is Distance ==> y is Distance && t.dead_head_distance->Distance_0 >= y->Distance_0)
         &&& (t.dead_head_distance is Distance && g is Distance ==> (t.dead_head_distance->Distance_0 - y->Distance_0) + g->Distance_0 <= u64::MAX)
-        // and, if both depots stay (or the tour is a dummy tour), the result is the from-scratch value
-        &&& (t.is_dummy || (1 <= s && e1 <= t.len() - 1) ==>
-            dist_add(if t.dead_head_distance is Infinity { Distance::Infinity } else { Distance::Distance((t.dead_head_distance->Distance_0 - y->Distance_0) as u64) }, g)
-                == t.network.spec_dead_head_distance(t.rest(s, e1)))
     }),
 {
     let net = &t.network;
@@ -77,6 +73,56 @@ pub proof fn lemma_remove_dhd(t: &Tour, s: int, e1: int)
         assert forall|i: int| 0 <= i < m.len() implies (#[trigger] net.sp_node(m[i])).sp_is_activity() by { lemma_tour_kinds(t, s + i); }
         if psum(t.nodes@, net.f_leg_dist()) >= DBIG { lemma_remove_keeps_infinity(net, p, m, u); }
     }
+}
+/// if both depots stay (or the tour is a dummy tour), the delta formula gives the from-scratch value
+pub proof fn lemma_remove_dhd_exact(t: &Tour, s: int, e1: int)
+    requires cut_ok(t, s, e1), s < e1, t.dead_head_distance == t.network.spec_dead_head_distance(t.nodes@),
+        t.is_dummy || (1 <= s && e1 <= t.len() - 1),
+    ensures ({
+        let y = ddec(mid_p(t.pre(s), t.mid(s, e1), t.suf(e1), t.network.f_leg_dist()));
+        let g = gap_dist(t, s, e1);
+        dist_add(if t.dead_head_distance is Infinity { Distance::Infinity } else { Distance::Distance((t.dead_head_distance->Distance_0 - y->Distance_0) as u64) }, g)
+            == t.network.spec_dead_head_distance(t.rest(s, e1))
+    }),
+{
+    let net = &t.network;
+    lemma_cuts(t, s, e1);
+    let p = t.pre(s); let m = t.mid(s, e1); let u = t.suf(e1);
+    lemma_split3(net, t.nodes@, s, e1);
+    lemma_join2(net, p, u);
+    lemma_mid_nonneg(net, p, m, u);
+    lemma_dhd_bounds(net, m);
+    lemma_dhd_bounds(net, p + u);
+    if s > 0 && e1 < t.len() {
+        assert(net.has(t.nodes@[s - 1]) && net.has(t.nodes@[e1]));
+        lemma_leg_facts(net, t.nodes@[s - 1], t.nodes@[e1]);
+        lemma_leg_inf(net, t.nodes@[s - 1], t.nodes@[e1]);
+        assert(p.last() == t.nodes@[s - 1] && u.first() == t.nodes@[e1]);
+    }
+    if t.is_dummy {
+        assert forall|i: int| 0 <= i < t.nodes@.len() implies (#[trigger] net.sp_node(t.nodes@[i])).sp_is_activity() by {}
+        lemma_psum_dist_activities(net, t.nodes@);
+    } else if 1 <= s && e1 <= t.len() - 1 {
+        assert forall|i: int| 0 <= i < m.len() implies (#[trigger] net.sp_node(m[i])).sp_is_activity() by { lemma_tour_kinds(t, s + i); }
+        if psum(t.nodes@, net.f_leg_dist()) >= DBIG { lemma_remove_keeps_infinity(net, p, m, u); }
+    }
+}
+pub proof fn lemma_remove_dhd(t: &Tour, s: int, e1: int)
+    requires cut_ok(t, s, e1), s < e1, t.dead_head_distance == t.network.spec_dead_head_distance(t.nodes@),
+    ensures ({
+        let y = ddec(mid_p(t.pre(s), t.mid(s, e1), t.suf(e1), t.network.f_leg_dist()));
+        let g = gap_dist(t, s, e1);
+        // no panic in `dhd - y + g`
+        &&& (t.dead_head_distance is Distance ==> y is Distance && t.dead_head_distance->Distance_0 >= y->Distance_0)
+        &&& (t.dead_head_distance is Distance && g is Distance ==> (t.dead_head_distance->Distance_0 - y->Distance_0) + g->Distance_0 <= u64::MAX)
+        // and, if both depots stay (or the tour is a dummy tour), the result is the from-scratch value
+        &&& (t.is_dummy || (1 <= s && e1 <= t.len() - 1) ==>
+            dist_add(if t.dead_head_distance is Infinity { Distance::Infinity } else { Distance::Distance((t.dead_head_distance->Distance_0 - y->Distance_0) as u64) }, g)
+                == t.network.spec_dead_head_distance(t.rest(s, e1)))
+    }),
+{
+    lemma_remove_dhd_no_panic(t, s, e1);
+    if t.is_dummy || (1 <= s && e1 <= t.len() - 1) { lemma_remove_dhd_exact(t, s, e1); }
 }
 pub open spec fn gap_cost(t: &Tour, s: int, e1: int) -> int {
     if s == 0 || e1 == t.len() { 0 } else { t.network.leg_cost(t.nodes@[s - 1], t.nodes@[e1]) }
